@@ -393,6 +393,24 @@ pub fn deep_code_weights(arity: usize, levels: usize) -> Vec<u64> {
     w
 }
 
+/// Frequencies whose binary Huffman tree has two long branches (two codewords per length, four of
+/// the maximal length `depth`): unlike the single-chain profile, long codewords with set bits in
+/// their most significant positions occur.
+pub fn two_branch_weights(depth: usize) -> Vec<u64> {
+    let (mut l, mut p, mut q) = (1u64, 1u64, 1u64);
+    let mut f = vec![1u64, 1, 1, 1];
+    for _ in 2..depth {
+        let nl = l.max(p).max(q) + 1;
+        let np = 2 * l;
+        let nq = p + q;
+        l = nl;
+        p = np;
+        q = nq;
+        f.extend([l, l]);
+    }
+    f
+}
+
 /// The interesting lengths up to `max_n`: tiny ones and the neighbours of every structural period.
 pub fn boundary_lengths(max_n: usize) -> Vec<usize> {
     let mut v = vec![0usize, 1, 2, 3, 5, 63, 64, 65];
